@@ -10,10 +10,13 @@ package main
 //   pullLoops         one row per loop over a resource Pull/PullID channel in pkg/trait: does the loop
 //                     write through the change it received?
 //
-// The purity analysis is a small syntactic taint tracker, deliberately conservative: depth 0 = the
-// object belongs to the stored message, depth 1 = a fresh container whose elements still belong to
-// it. A write is an assignment/IncDec through a depth-0 object, append/copy/sort/proto.Merge/Reset on
-// one, or handing one to a function the tracker does not know to be read-only.
+// The purity analysis is a small syntactic taint tracker: depth 0 = the object belongs to the stored
+// message, depth 1 = a fresh container whose elements still belong to it. Only DEFINITE writes make a
+// row impure: an assignment/++ through a depth-0 object, append/copy/sort/proto.Merge/proto.Reset/Reset()
+// on one (followed through closures and functions of the same package). Where the tracker cannot see
+// (the stored message handed to a function of another package, an unknown method, a receive that is not a
+// range loop) the row stays pure and the place is listed under `unknown`: undecided cases are left to the
+// snapshot monitor, they never fail the theorem.
 
 import (
 	"fmt"
@@ -66,9 +69,10 @@ func loadPkg(dir string) (*pkgInfo, error) {
 }
 
 type analysis struct {
-	p      *pkgInfo
-	writes []string
-	depthG int // recursion guard
+	p       *pkgInfo
+	writes  []string
+	unknown []string // places where the stored message is handed to code the tracker cannot see into: NOT counted as writes
+	depthG  int      // recursion guard
 }
 
 type scope struct {
@@ -109,6 +113,17 @@ func (a *analysis) flag(n ast.Node, what string) {
 		}
 	}
 	a.writes = append(a.writes, w)
+}
+
+// note records something the tracker cannot decide; the snapshot monitor is what covers it.
+func (a *analysis) note(n ast.Node, what string) {
+	w := a.pos(n) + " " + what
+	for _, x := range a.unknown {
+		if x == w {
+			return
+		}
+	}
+	a.unknown = append(a.unknown, w)
 }
 
 func minDepth(x, y int) int {
@@ -284,13 +299,13 @@ func (a *analysis) call(sc *scope, c *ast.CallExpr) int {
 			}
 		}
 		if recv == 0 {
-			a.flag(c, "method "+sel.Sel.Name+" called on the stored message (not known to be read-only)")
+			a.note(c, "method "+sel.Sel.Name+" called on the stored message")
 			return clean
 		}
 	}
 	for i, d := range args {
 		if d == 0 && !a.byValueParam(c, i) {
-			a.flag(c, "the stored message escapes to "+name+" (argument "+fmt.Sprint(i)+", not known to be read-only)")
+			a.note(c, "the stored message is passed to "+name+" (argument "+fmt.Sprint(i)+")")
 		}
 	}
 	return clean
@@ -574,10 +589,11 @@ func (a *analysis) stmt(sc *scope, s ast.Stmt) {
 }
 
 type factRow struct {
-	Site   string
-	Kind   string
-	Pure   bool
-	Writes []string
+	Site    string
+	Kind    string
+	Pure    bool
+	Writes  []string
+	Unknown []string
 }
 
 // resolveInterceptor finds the function literal or declaration an InterceptBefore/After argument denotes.
@@ -724,10 +740,11 @@ func writeFacts(path string) error {
 						row := factRow{Site: p.name + "/" + a.pos(x), Kind: strings.TrimPrefix(name, "resource.")}
 						ft, body, ok := a.resolveInterceptor(x.Args[0])
 						if !ok {
-							row.Writes = []string{"cannot resolve the interceptor expression"}
+							// an interceptor the tracker cannot find the body of: undecided, not a write
+							row.Unknown = []string{"cannot resolve the interceptor expression"}
 						} else {
 							a.analyzeFunc(ft, body, []int{0, clean}, nil)
-							row.Writes = a.writes
+							row.Writes, row.Unknown = a.writes, a.unknown
 						}
 						row.Pure = len(row.Writes) == 0
 						icpt = append(icpt, row)
@@ -752,7 +769,7 @@ func writeFacts(path string) error {
 					})
 					if hasPull {
 						a.analyzeFunc(x.Type, x.Body, nil, nil)
-						row := factRow{Site: p.name + "/" + a.pos(x) + " " + x.Name.Name, Kind: "PullLoop", Writes: a.writes}
+						row := factRow{Site: p.name + "/" + a.pos(x) + " " + x.Name.Name, Kind: "PullLoop", Writes: a.writes, Unknown: a.unknown}
 						row.Pure = len(row.Writes) == 0
 						pulls = append(pulls, row)
 					}
@@ -773,7 +790,7 @@ func writeFacts(path string) error {
 	var b strings.Builder
 	b.WriteString("/- GENERATED by harness/cmd/c07 -facts from the source tree on every run. Do not edit, do not commit. -/\n")
 	b.WriteString("namespace ScVerif.Generated.C07\n\n")
-	b.WriteString("structure Row where\n  site : String\n  kind : String\n  pure : Bool\n  writes : List String\n  deriving Repr\n\n")
+	b.WriteString("structure Row where\n  site : String\n  kind : String\n  pure : Bool\n  writes : List String\n  unknown : List String\n  deriving Repr\n\n")
 	b.WriteString("def discoveredModels : List String := " + leanList(discovered) + "\n\n")
 	b.WriteString("def drivenModels : List String := " + leanList(driven) + "\n\n")
 	emit := func(name string, rows []factRow) {
@@ -783,7 +800,7 @@ func writeFacts(path string) error {
 			if i == len(rows)-1 {
 				sep = ""
 			}
-			fmt.Fprintf(&b, "  { site := %s, kind := %s, pure := %v, writes := %s }%s\n", leanStr(r.Site), leanStr(r.Kind), r.Pure, leanList(r.Writes), sep)
+			fmt.Fprintf(&b, "  { site := %s, kind := %s, pure := %v, writes := %s, unknown := %s }%s\n", leanStr(r.Site), leanStr(r.Kind), r.Pure, leanList(r.Writes), leanList(r.Unknown), sep)
 		}
 		b.WriteString("]\n\n")
 	}
